@@ -578,7 +578,8 @@ struct VM : VMBase
       std::string name = "lg" + std::to_string(op.v[3] ? op.v[3] : op.v[0]);
       make_logger(static_cast<int>(slot), op.v[1], static_cast<int>(op.v[2]), name);
       slots[slot].generation = gen;
-      record(EV_CREATE_LOGGER, op.v[0], slots[slot].sink_mask, 1, gen);
+      Ev& ce = record(EV_CREATE_LOGGER, op.v[0], slots[slot].sink_mask, 1, gen);
+      ce.s = name;
       break;
     }
     case OP_REMOVE_LOGGER:
@@ -723,7 +724,9 @@ struct VM : VMBase
       }
       if (target >= 0)
       {
-        sim::arm_stall(target, static_cast<uint8_t>(op.v[1]), static_cast<uint32_t>(op.v[2]), static_cast<uint64_t>(op.v[3]));
+        // v1 = kind + 256 * previous kind of the same thread (0 = any)
+        sim::arm_stall(target, static_cast<uint8_t>(op.v[1] & 0xFF), static_cast<uint32_t>(op.v[2]), static_cast<uint64_t>(op.v[3]),
+                       static_cast<uint8_t>((op.v[1] >> 8) & 0xFF));
       }
       break;
     }
